@@ -47,6 +47,8 @@ type Opts struct {
 	Horizon int
 	// RandChunk > 0: the randomness sources handed to the code under test return at most RandChunk bytes per Read
 	RandChunk int
+	// Prefix: scheduler choices to replay (nil: the default schedule)
+	Prefix []int
 }
 
 // Result is what a session produced.
@@ -59,6 +61,7 @@ type Result struct {
 	G2E, E2G   []byte
 	Seen       []ot.Wire // wires the garbler handed to its OT (both labels)
 	Steps      int
+	Choices    []int // the scheduler choices of this execution
 }
 
 // MkOT builds the OT variant.
@@ -80,13 +83,48 @@ func MkOT(kind string, rd *drbg.Reader) ot.OT {
 	return idealot.New()
 }
 
-func run(o Opts, garbler func(conn *p2p.Conn, oti ot.OT, r *Result) error, evaluator func(conn *p2p.Conn, oti ot.OT, r *Result) error) *Result {
+type party func(conn *p2p.Conn, oti ot.OT, r *Result) error
+
+func run(o Opts, garbler, evaluator party) *Result {
 	res := &Result{}
 	opts := csched.Options{Horizon: o.Horizon}
 	if opts.Horizon == 0 {
 		opts.Horizon = 20000000
 	}
-	cr := csched.Run(nil, opts, func() {
+	cr := csched.Run(o.Prefix, opts, system(o, res, garbler, evaluator))
+	res.Outcome, res.Detail, res.Steps = cr.Outcome, cr.Detail, cr.Steps
+	res.Choices = cr.Choices
+	return res
+}
+
+// ExploreCircuit runs circuit.Garbler against circuit.Evaluator under EVERY schedule with at most p preemptions and
+// f-1 non-default free switches (threads: the two parties and their connections' writer goroutines); visit gets the
+// result of each execution and returns false to stop. It reports executions, transitions and whether the search was cut.
+func ExploreCircuit(circ *circuit.Circuit, gin, ein *big.Int, o Opts, p, f int, stop func() bool, visit func(r *Result) bool) (int64, int64, bool) {
+	x := &csched.Explorer{PBound: p, FBound: f, Opts: csched.Options{Horizon: 20000000}, Stop: stop}
+	var res *Result
+	x.Explore(func() {
+		res = &Result{}
+		system(o, res, func(conn *p2p.Conn, oti ot.OT, r *Result) error {
+			cfg := &env.Config{Rand: drbg.NewChunked(o.Seed*2+11, o.RandChunk)}
+			out, err := circuit.Garbler(cfg, conn, oti, circ, gin, false)
+			r.GOut = out
+			return err
+		}, func(conn *p2p.Conn, oti ot.OT, r *Result) error {
+			out, err := circuit.Evaluator(conn, oti, circ, ein, false)
+			r.EOut = out
+			return err
+		})()
+	}, func(cr *csched.Result, pp, ee int) bool {
+		res.Outcome, res.Detail, res.Steps = cr.Outcome, cr.Detail, cr.Steps
+		res.Choices = cr.Choices
+		return visit(res)
+	})
+	return x.Executions, x.Transitions, x.Truncated
+}
+
+func system(o Opts, res *Result, garbler, evaluator party) func() {
+	return func() {
 		vnet.Reset()
 		vrand.Seed(o.Seed + 99)
 		a, b := vnet.Pipe("G", "E")
@@ -124,9 +162,7 @@ func run(o Opts, garbler func(conn *p2p.Conn, oti ot.OT, r *Result) error, evalu
 			res.EErr = protect(func() error { return evaluator(conn, MkOT(o.OT, drbg.NewChunked(o.Seed*2+2, o.RandChunk)), res) })
 			conn.Close()
 		})
-	})
-	res.Outcome, res.Detail, res.Steps = cr.Outcome, cr.Detail, cr.Steps
-	return res
+	}
 }
 
 // protect turns a panic of the code under test into an error of that party
